@@ -25,6 +25,7 @@ pub struct C06;
 pub fn profile(tier: Tier) -> Profile {
     let mut p = Profile::base(if tier == Tier::Quick { 40 } else { 100 });
     p.w_reject = 6;
+    p.big_batches = true;
     p.w_reopen = 1;
     p.small_cache = true;
     p
